@@ -34,6 +34,9 @@ def gen_scenario(seed, cfg):
     eg = gen.ExprGen(sim, max_depth=depth, allow_alias=sim.coin('aliases', 0.5),
                      allow_quant=sim.coin('quants', 0.5), allow_api=sim.coin('api', 0.3),
                      trig_bias=sim.pick('bias', (0.15, 0.35, 0.6)))
+    if sim.coin('namepool', 0.4):
+        eg.unique_vars = False
+        eg.free_vars = True
     if kind == 'numexpr':
         term = eg.num(0)
     else:
@@ -48,10 +51,15 @@ def gen_scenario(seed, cfg):
     vals = []
     specials = (0, 1, -1, 2)
     for i in range(cfg['valuations']):
-        env = {'this': gen.make_message(sim, 'this'), 'A': gen.make_message(sim, 'A')}
+        env = {'this': gen.make_message(sim, 'this'), 'A': gen.make_message(sim, 'A'),
+               'free': {v: sim.pick('freeval', gen.NUM_GRID) for v in gen.FREE_VARS}}
         if i < len(specials):
             from fractions import Fraction
-            for m in env.values():
+            for key, m in env.items():
+                if key == 'free':
+                    for v in m:
+                        m[v] = Fraction(specials[i])
+                    continue
                 for f in gen.NUM_FIELDS:
                     m[f] = Fraction(specials[i])
                 m['m']['x'] = Fraction(specials[i])
@@ -109,7 +117,7 @@ def identically_zero_divisor(expr, valuations):
             if type(node).__name__ == 'HplBinaryOperator' and node.operator.token == '/':
                 allzero = True
                 for env in valuations:
-                    oc = refeval.outcome(node.operand2, refeval.Env(env['this'], {'A': env['A']}), rd)
+                    oc = refeval.outcome(node.operand2, refeval.Env(env['this'], dict(env.get('free') or {}, A=env['A'])), rd)
                     if oc[0] == 'val':
                         try:
                             if not refeval.num_eq(oc[1], 0):
@@ -124,17 +132,21 @@ def identically_zero_divisor(expr, valuations):
 
 
 def never_defined(expr, valuations):
+    """No valuation of the grid gives the input a value (and at least one makes it plainly undefined)."""
     rd = refeval.ALL_READINGS[0]
+    undef = 0
     for env in valuations:
-        oc = refeval.outcome(expr, refeval.Env(env['this'], {'A': env['A']}), rd)
-        if oc[0] != refeval.UNDEF:
+        oc = refeval.outcome(expr, refeval.Env(env['this'], dict(env.get('free') or {}, A=env['A'])), rd)
+        if oc[0] == 'val':
             return False
-    return True
+        if oc[0] == refeval.UNDEF:
+            undef += 1
+    return undef > 0
 
 
 def judge_valuation(orig, simp, envd):
     """Returns None (no violation / not judged) or ('value'|'undef', detail). Also a status tag."""
-    env = refeval.Env(envd['this'], {'A': envd['A']})
+    env = refeval.Env(envd['this'], dict(envd.get('free') or {}, A=envd['A']))
     detail = None
     for rd in refeval.ALL_READINGS:
         o = refeval.outcome(orig, env, rd)
